@@ -898,3 +898,39 @@ V("mincost-scan-short", "neutral", ["C02", "C04", "C09"], H + "min_cost_dom_heur
 V("mincost-scan-long", "break", ["C02", "C09"], H + "min_cost_dom_heuristic.py",
   "    for value in range(shr_domain[MIN], shr_domain[MAX] + 1):\n", "    for value in range(shr_domain[MIN], shr_domain[MAX] + 2):\n",
   "the scan reaches one value past the domain: a cheaper value outside it is branched on", "min_cost_dom_heuristic")
+_BT_CALL = ("            if not backtrack(\n                self.statistics,\n                self.not_entailed_propagators_stack,\n                self.dom_update_stack,\n"
+            "                self.stacks_top,\n                self.triggered_propagators,\n                self.problem.triggers,\n            ):\n"
+            "                break  # the incumbent was the last leaf of the search tree\n")
+_OPT_FOUND = "            logger.info(f\"Found a local optimum: {solution[variable_idx]}\")\n            best_solution = solution\n"
+V("optimize-stops-on-last-leaf", "break", ["C17"], BS, _OPT_FOUND, _OPT_FOUND + _BT_CALL,
+  "backtrack() used as the 'any alternative left?' test before the restart: the optimum is the same, but a popped choice point is counted and then discarded by reset()",
+  "BacktrackSolver.optimize")
+V("optimize-stops-on-last-leaf-optimum", "neutral", ["C03", "C04"], BS, _OPT_FOUND, _OPT_FOUND + _BT_CALL,
+  "the same edit seen from C03 / C04: leaving after a solution when the stack is exhausted is a correct early stop (the check used to demand a tightening call on that path)")
+V("optimize-stops-after-first", "break", ["C03"], BS, _OPT_FOUND, _OPT_FOUND + "            break\n",
+  "the loop leaves unconditionally after its first solution: the first solution is returned as the optimum", "BacktrackSolver.optimize")
+V("worker-helper-thread", "break", ["C18"], BS, None, None, "a non-daemon helper thread started in the worker keeps a crashed worker alive", "BacktrackSolver.solve_and_queue",
+  edits=[{"old": "import logging\n", "new": "import logging\nimport threading\n"},
+         {"old": "        logger.info(\"Solving and queuing solutions found\")\n", "new": "        logger.info(\"Solving and queuing solutions found\")\n        threading.Thread(target=logger.debug, args=(\"worker started\",)).start()\n"}])
+V("worker-helper-thread-daemon", "neutral", ["C18", "C11"], BS, None, None, "the same helper thread as a daemon",
+  edits=[{"old": "import logging\n", "new": "import logging\nimport threading\n"},
+         {"old": "        logger.info(\"Solving and queuing solutions found\")\n", "new": "        logger.info(\"Solving and queuing solutions found\")\n        threading.Thread(target=logger.debug, args=(\"worker started\",), daemon=True).start()\n"}])
+V("bounded-queue-timed-put", "break", ["C11", "C12"], MP, None, None, "a bounded solution queue and a put that gives up after 5 s: a pausing consumer loses solutions", None,
+  edits=[{"old": "        solutions: Queue = Queue()\n", "new": "        solutions: Queue = Queue(4096)\n", "all": True}],
+  also=[{"file": BS, "edits": [{"old": "            solution_queue.put((processor_idx, solution, self.statistics))\n", "new": "            solution_queue.put((processor_idx, solution, self.statistics), timeout=5)\n", "all": True}]}])
+V("bounded-queue-blocking-put", "neutral", ["C11", "C12", "C18"], MP, None, None, "a bounded queue alone: the workers wait for the consumer",
+  edits=[{"old": "        solutions: Queue = Queue()\n", "new": "        solutions: Queue = Queue(4096)\n", "all": True}])
+V("find-all-unique", "break", ["C11"], MP, None, None, "find_all() of the multiprocessing solver returns np.unique of the rows: equal rows merged", "MultiprocessingSolver.find_all",
+  edits=[{"old": "    def __init__(self, solvers: List[BacktrackSolver], log_level: str = LOG_LEVEL_INFO):\n",
+          "new": "    def find_all(self):  # type: ignore\n        solutions = super().find_all()\n        return list(np.unique(np.array(solutions), axis=0)) if solutions else solutions\n\n"
+                 "    def __init__(self, solvers: List[BacktrackSolver], log_level: str = LOG_LEVEL_INFO):\n"},
+         {"old": "import logging\n", "new": "import logging\nimport numpy as np\n"}])
+V("find-all-listed", "neutral", ["C11", "C12"], MP, None, None, "find_all() overridden to return a fresh list of the same rows",
+  edits=[{"old": "    def __init__(self, solvers: List[BacktrackSolver], log_level: str = LOG_LEVEL_INFO):\n",
+          "new": "    def find_all(self):  # type: ignore\n        solutions = super().find_all()\n        return list(solutions)\n\n"
+                 "    def __init__(self, solvers: List[BacktrackSolver], log_level: str = LOG_LEVEL_INFO):\n"}])
+V("queens-workers-whole-problem", "break", ["C12"], "nucs/examples/queens/__main__.py", "                for problem in problem.split(args.processors, 0)\n",
+  "                for part in problem.split(args.processors, 0)\n", "the loop variable renamed but not its use: every worker is built on the whole problem", "<module>")
+V("bc-clears-wakeup-column", "break", ["C01", "C03", "C13", "C15"], BC, "            not_entailed_propagators_stack[top, prop_idx] = False\n",
+  "            not_entailed_propagators_stack[top, prop_idx] = False\n            if top == 0:\n                triggers[:, prop_idx] = 0\n",
+  "an entailed propagator's column of the problem's wake-up table cleared 'at the root': it stays deaf after the next restart", "bound_consistency_algorithm")
